@@ -594,7 +594,7 @@ RANGES = [[(-1240.0, 'km/s'), (1240.0, 'km/s')], [(1.42, 'GHz'), (1.421, 'GHz')]
 CORRS = [['I'], ['I', 'Q'], ['I', 'Q', 'U', 'V'], ['XX', 'YY'], ['RR', 'LL', 'RL'], ['Q']]
 FRAMES_SPEC = ['REST', 'LSRK', 'LSRD', 'BARY', 'GEO', 'TOPO', 'GALACTO', 'LGROUP', 'CMB']
 VELTYPES = ['RADIO', 'OPTICAL', 'Z', 'BETA', 'GAMMA']
-COLORS = ['red', 'blue', 'green', '#00ff00', '2ee6d6', 'magenta']
+COLORS = ['red', 'blue', 'green', '#00ff00', '2ee6d6', 'magenta', '003366', '000000', '808080', '00ff00']      # (hex without '#' as CARTA writes it: all digits too)
 MISC_VISUAL = {'linestyle': ['-', '--', ':'], 'symsize': [1, 2], 'symthick': [1, 3], 'font': ['Helvetica', 'Courier'],
                'fontsize': [10, 12], 'fontstyle': ['bold', 'normal', 'italic'], 'usetex': ['true', 'false', False],
                'labelpos': ['top', 'bottom', 'left', 'right']}
